@@ -19,8 +19,12 @@ from pyvc.values import VInt, VObj, VModel, VStr, VTuple, VNative, NONE
 
 
 class HOLE:
-    def __init__(self, arg):
+    """a child sub-expression; `ref=True`: the child is itself a statement construct, i.e. its text is a reference
+    `ex_<n>(activation)` to a generated lambda (||, &&, ?:, has(), a macro) rather than an inline expression"""
+
+    def __init__(self, arg, ref=False):
         self.arg = arg
+        self.ref = ref
 
 
 class TOK:
@@ -28,10 +32,20 @@ class TOK:
         self.type, self.value = type_, value
 
 
+_REFNUM = {}
+
+
+def refname(arg):
+    """the name a generated lambda would have: ex_<number> (numbers far above any the transpiler assigns to a mock node)"""
+    if arg not in _REFNUM:
+        _REFNUM[arg] = 9001 + len(_REFNUM)
+    return f"ex_{_REFNUM[arg]}"
+
+
 def nat_ttree(shape):
     if isinstance(shape, HOLE):
         t = ev.TranspilerTree("stub", [])
-        t.transpiled = f"hole_{shape.arg}(activation)"
+        t.transpiled = f"{refname(shape.arg)}(activation)" if getattr(shape, "ref", False) else f"hole_{shape.arg}(activation)"
         return t
     if isinstance(shape, TOK):
         return lark.Token(shape.type, shape.value)
@@ -100,6 +114,7 @@ def template_contract(name, shape, args, ret, target, functions=None, **kw):
     def invoke(run, S):
         from contracts.evaluator_rules import sym_activation
         vars_ = {f"hole_{n}": getattr(S, n) for n, _ in args}
+        vars_.update({refname(n): getattr(S, n) for n, _ in args})
         vars_["base_activation"] = sym_activation(run, functions)
         env = se.Env(vars_, None, ev.__dict__)
         run.exec_block(tree.body, env)
@@ -109,6 +124,7 @@ def template_contract(name, shape, args, ret, target, functions=None, **kw):
         g = dict(ev.__dict__)
         for n, _ in args:
             g[f"hole_{n}"] = N[n]
+            g[refname(n)] = N[n]
         g["base_activation"] = ev.Activation(functions=functions)
         exec(compile(text, "<emitted>", "exec"), g)
         return g["CEL"]
@@ -144,4 +160,17 @@ def c02_template_contracts():
         return ite(c[1], same(S.l), same(S.r))
     cs.append(template_contract("emitted[expr](c ? l : r)", ("expr", [HOLE("c"), HOLE("l"), HOLE("r")]),
                                 [("c", H), ("l", H), ("r", H)], cond_post, P1 + "expr", cover=False, max_paths=20000))
+    # the same templates when the operands are themselves statement constructs (their text is `ex_<n>(activation)`): the
+    # operand must still be evaluated under result() - an operator that looks at the operand's text is caught here
+    HS = [HoleDom(dom=BOOL), HoleDom(dom=ERR), HoleDom(dom=NONBOOL[0]), HoleDom(exc=TypeError), HoleDom(exc=ZeroDivisionError)]
+    cs += [
+        template_contract("emitted[conditionalor](x || y), operands are generated lambdas", ("conditionalor", [HOLE("x", True), HOLE("y", True)]),
+                          [("x", HS), ("y", HS)], lambda S, r: or_spec(hole_desc(S.x), hole_desc(S.y), desc(r)), P1 + "conditionalor", cover=False),
+        template_contract("emitted[conditionaland](x && y), operands are generated lambdas", ("conditionaland", [HOLE("x", True), HOLE("y", True)]),
+                          [("x", HS), ("y", HS)], lambda S, r: and_spec(hole_desc(S.x), hole_desc(S.y), desc(r)), P1 + "conditionaland", cover=False),
+        template_contract("emitted[expr](c ? l : r), operands are generated lambdas", ("expr", [HOLE("c", True), HOLE("l", True), HOLE("r", True)]),
+                          [("c", HS), ("l", HS), ("r", HS)], cond_post, P1 + "expr", cover=False),
+        template_contract("emitted[unary_not](!x), operand is a generated lambda", ("unary", [("unary_not", []), HOLE("x", True)]), [("x", HS)],
+                          lambda S, r: not_spec(hole_desc(S.x), desc(r)), P1 + "unary", cover=False),
+    ]
     return cs
